@@ -89,7 +89,8 @@ func (r RemoveIntersections) processObject(_ *Visitor, schema *ast.Schema, objec
 
 	if locatedObject.Type.IsStruct() {
 		newObject := object
-		newObject.Type = ast.NewStruct(locatedObject.Type.AsStruct().Fields...)
+		// every alias gets its own fields: what is done to one of them later must not show in the others
+		newObject.Type = ast.NewStruct(locatedObject.Type.DeepCopy().AsStruct().Fields...)
 		if object.Type.ImplementsVariant() {
 			newObject.Type.Hints[ast.HintImplementsVariant] = object.Type.ImplementedVariant()
 		}
@@ -152,7 +153,7 @@ func (r RemoveIntersections) processStruct(_ *Visitor, _ *ast.Schema, def ast.Ty
 				retype(ast.NewRef(obj.SelfRef.ReferredPkg, obj.SelfRef.ReferredType))
 			}
 			if obj, ok := r.arraysToFix[field.Type.AsRef().ReferredType]; ok {
-				retype(ast.NewArray(obj.Type.AsArray().ValueType))
+				retype(ast.NewArray(obj.Type.AsArray().ValueType.DeepCopy()))
 			}
 		}
 	}
